@@ -10,7 +10,11 @@ BOUNDED token_positions   the real Lexer(config).lex(TemplatedFile) on
    (a) untemplated random strings x every bundled dialect            clause ids  C01/untemplated/<clause>
    (b) templates of a small grammar rendered by the real jinja / placeholder / python templaters
                                                                      clause ids  C01/templated/<clause>
-Each failing clause is reported once, with the smallest witness found by shrinking the template.
+Each failing clause is reported once, with the smallest witness found by shrinking the template (loop-free witnesses preferred).
+Templated clause ids are partitioned by a precondition: the suffix "[element-straddles-slices]" marks templates in which some
+lexed element of the rendered text extends over more than one file slice (the lexer's split / spill paths, where all the
+known defects live); ids without the suffix come from templates whose every element lies inside one slice.
+"sliced-file-covers-source[<templater>]" is a statement about the templater's output, kept apart from the lexer's clauses.
 """
 from __future__ import annotations
 
@@ -126,7 +130,7 @@ def check_templated(tf, tokens, errs):
     if "".join(t.raw for t in nonmeta) != T:
         bad["raws-concatenate"] = {"joined": "".join(t.raw for t in nonmeta), "templated_str": T}
     literals = [s for s in tf.sliced_file if s.slice_type == "literal"]
-    slices_reach = max([s.source_slice.stop for s in tf.sliced_file], default=0)
+    last_stop = tf.sliced_file[-1].source_slice.stop if tf.sliced_file else 0
     # is the templater's own slice sequence monotone in the source, except for the backward jump after a block_end (a loop)?
     # the python templater's heuristic slicing can violate this without any loop; the lexer cannot repair that
     monotone_tf = all(b.source_slice.start >= a.source_slice.start or a.slice_type.startswith("block")
@@ -171,18 +175,26 @@ def check_templated(tf, tokens, errs):
     # `skipped_source` placeholders) account for must be covered by tokens / placeholders; what the templater left out of
     # sliced_file altogether is reported under its own clause (root cause in the templater, C07's subject)
     holes = [i for i, c in enumerate(covered) if not c]
-    lexer_holes = [i for i in holes if i < slices_reach]
+    accounted = set()
+    for k, sl in enumerate(tf.sliced_file):
+        accounted.update(range(sl.source_slice.start, sl.source_slice.stop))
+        nxt = tf.sliced_file[k + 1] if k + 1 < len(tf.sliced_file) else None
+        if nxt is not None and sl.templated_slice.start == sl.templated_slice.stop and nxt.source_slice.start > sl.source_slice.stop:
+            accounted.update(range(sl.source_slice.stop, nxt.source_slice.start))        # forward jump: `skipped_source` placeholder
+    lexer_holes = [i for i in holes if i in accounted]
+    templater_holes = [i for i in range(len(S)) if i not in accounted]
     if lexer_holes:
         bad["source-covered"] = {"uncovered_source_indices": lexer_holes[:20], "uncovered_text": "".join(S[i] for i in lexer_holes[:40])}
-    if slices_reach < len(S):
-        bad["sliced-file-covers-source"] = {"sliced_file_reaches": slices_reach, "len_source": len(S), "uncovered_text": S[slices_reach:][:40],
+    if templater_holes:
+        bad["sliced-file-covers-source"] = {"source_indices_in_no_file_slice": templater_holes[:20], "len_source": len(S),
+                                            "uncovered_text": "".join(S[i] for i in templater_holes[:40]),
                                             "raw_sliced": [(r.slice_type, r.source_idx) for r in tf.raw_sliced][:12]}
     d = _eof_clause(tokens)
     if d:
         bad["single-trailing-eof"] = d
-    elif _sl(tokens[-1].pos_marker.templated_slice) != [len(T), len(T)] or _sl(tokens[-1].pos_marker.source_slice) != [slices_reach, slices_reach]:
+    elif _sl(tokens[-1].pos_marker.templated_slice) != [len(T), len(T)] or _sl(tokens[-1].pos_marker.source_slice) != [last_stop, last_stop]:
         bad["single-trailing-eof"] = {"eof_templated_slice": _sl(tokens[-1].pos_marker.templated_slice), "eof_source_slice": _sl(tokens[-1].pos_marker.source_slice),
-                                      "len_templated": len(T), "sliced_file_reaches": slices_reach}
+                                      "len_templated": len(T), "source_stop_of_last_file_slice": last_stop}
     d = _lxr_clause(tokens, errs)
     if d:
         bad["lxr-per-unlexable"] = d
@@ -323,10 +335,12 @@ def _eval_template(parts, dialect, templater):
         return None, src, None
     tf, tokens, errs = r
     bad = check_templated(tf, tokens, errs)
+    if "sliced-file-covers-source" in bad:       # a statement about the templater's output: one id per templater
+        bad[f"sliced-file-covers-source[{templater}]"] = bad.pop("sliced-file-covers-source")
     if bad and _straddles(tf, dialect, templater):
         # partition by precondition: some lexed element spans more than one file slice (the lexer's split / spill paths).
         # The clause is the same; the tag keeps findings of those paths from masking the single-slice paths.
-        bad = {(k if k in UNTAGGED else k + TAG): v for k, v in bad.items()}
+        bad = {(k if k.startswith(UNTAGGED) else k + TAG): v for k, v in bad.items()}
     return bad, src, (tf, tokens)
 
 
@@ -433,18 +447,29 @@ JUDGEMENT = {
         "sqlfluff.lint('SELECT 1{{ \" \" }} {{ \" \" }}FROM t') raises with the default configuration",
     "source-non-decreasing": "NOT a defect, consequence of loops that the property should exempt: inside {% for %} every iteration after the first maps "
         "back to the loop body's source (design-time expectation (ii)); the exempting reading is clause source-non-decreasing-except-loops",
-    "sliced-file-covers-source": "property text violated, root cause in the JINJA TEMPLATER not the lexer (C07's subject): a trailing {% set %} / {# #} "
-        "with nothing rendered after it is present in raw_sliced but absent from sliced_file, so no token or placeholder can cover it",
+    "sliced-file-covers-source[jinja]": "property text violated, root cause in the JINJA TEMPLATER not the lexer (C07's subject): a trailing {% set %} / "
+        "{# #} with nothing rendered after it is present in raw_sliced but absent from sliced_file, so no token or placeholder can cover it",
+    "sliced-file-covers-source[python]": "root cause in the PYTHON TEMPLATER's heuristic slicing (C09's subject): a parameter whose value also occurs as "
+        "literal text is attributed to the literal, leaving the parameter's own source characters in no file slice",
+    "sliced-file-covers-source[placeholder]": "root cause in the placeholder templater (C09's subject)",
 }
 
 
 def token_positions(tier="quick", seed=0):
+    import logging
+    prev = logging.root.manager.disable
+    logging.disable(logging.CRITICAL)          # the lexer logs at debug level for every slice; restored on exit
+    try:
+        return _token_positions(tier, seed)
+    finally:
+        logging.disable(prev)
+
+
+def _token_positions(tier, seed):
     from sqlfluff.core import FluffConfig
     from sqlfluff.core.dialects import dialect_readout
     from sqlfluff.core.parser import Lexer
     from sqlfluff.core.templaters import TemplatedFile
-    import logging
-    logging.disable(logging.CRITICAL)
     rng = random.Random(f"c01-positions-{seed}")
     t0 = time.time()
     ev = nontriv = 0
